@@ -177,6 +177,9 @@ func decIntrinsics(in *interp, notOne bool) {
 		in.inline[n] = true
 	}
 	_ = p
+	// helpers extracted from an operation are interpreted with it; the numeric kernels are not
+	in.inlineAll = true
+	in.noInline = []string{"uint128.", "uint192.", "uint256.", "uint384.", "decomposed192.", "digits.", "Decimal.digits", "Decimal.format", "Decimal.String", "parseNumber", "parse", "formatArgs.", "Payload."}
 	// opaque == const comparisons and float == 0
 	in.evalLeaf = func(in *interp, st *state, e ast.Expr) (AV, bool) {
 		be, ok := e.(*ast.BinaryExpr)
